@@ -28,6 +28,8 @@ Theorem C05_generator_primitive_when_checked : Generator_primitive_stmt.     Pro
 Print Assumptions C05_generator_primitive_when_checked.
 Theorem C05_extension_ops_are_quotient_ring_operations : Ext_ops_stmt.     Proof. exact ext_ops. Qed.
 Print Assumptions C05_extension_ops_are_quotient_ring_operations.
+Theorem C05_field_certificate_evaluated_per_run : Certified_field_stmt.     Proof. exact certified_field. Qed.
+Print Assumptions C05_field_certificate_evaluated_per_run.
 Theorem C05_extension_inv_div_partial : Ext_inv_stmt.     Proof. exact ext_inv. Qed.
 Print Assumptions C05_extension_inv_div_partial.
 (* bounded (complete kernel sweep): for every prime power q <= 32 (every modulus, every generator) and every prime field up to
